@@ -223,6 +223,73 @@ fn check_kind(kind: &Kind, nsym: u8, maxlen: usize, chunk_maxlen: usize) -> Kind
     out
 }
 
+/// resolution of the per-item random value that decides which item owns a position: two different items must not share it,
+/// otherwise the position goes to whichever came last (order dependence).  Size-1 sketches of every identifier of a block;
+/// SuperMinHash2 through hook H5 (values), SuperMinHash<f64> through the sketch value itself.
+fn resolution_check(ctx: &Ctx, n: u64) -> u64 {
+    use probminhash::nohasher::NoHashHasher;
+    use probminhash::superminhasher::SuperMinHash;
+    use probminhash::superminhasher2::SuperMinHash2;
+    let mut evals = 0u64;
+    macro_rules! smh2 {
+        ($ity:ty, $item:ty, $h:ty, $label:expr) => {{
+            let mut vals: Vec<(usize, u64)> = (0..n)
+                .into_par_iter()
+                .map(|i| {
+                    let mut s = SuperMinHash2::<$ity, $item, $h>::new(1, BuildHasherDefault::<$h>::default());
+                    s.sketch(&(i as $item)).unwrap();
+                    (s.verif_values()[0], i)
+                })
+                .collect();
+            evals += n;
+            vals.sort_unstable();
+            let dups: Vec<(u64, u64)> = vals.windows(2).filter(|w| w[0].0 == w[1].0).map(|w| (w[0].1, w[1].1)).collect();
+            if let Some((x, y)) = dups.first() {
+                // make it concrete: the two orders of the pair give different sketches
+                let run = |a: u64, b: u64| {
+                    let mut s = SuperMinHash2::<$ity, $item, $h>::new(1, BuildHasherDefault::<$h>::default());
+                    s.sketch(&(a as $item)).unwrap();
+                    s.sketch(&(b as $item)).unwrap();
+                    s.get_hsketch()[0] as u64
+                };
+                let (f, b) = (run(*x, *y), run(*y, *x));
+                ctx.violation(
+                    &format!("set-semantics:resolution:{}", $label),
+                    &format!(
+                        "{}: among {} items, {} pairs draw the same random value for position 0 (first: items {} and {}); streamed as [{},{}] the size-1 sketch is {:#x}, as [{},{}] it is {:#x}",
+                        $label, n, dups.len(), x, y, x, y, f, y, x, b
+                    ),
+                    json!({"kind": "resolution", "sketcher": $label, "n": n, "items": [x, y]}),
+                );
+            }
+        }};
+    }
+    smh2!(u64, u64, FnvHasher, "SuperMinHash2<u64,Fnv>");
+    smh2!(u32, u64, XxHash32, "SuperMinHash2<u32,XxHash32>");
+    smh2!(u32, u32, NoHashHasher, "SuperMinHash2<u32,NoHash>");
+    smh2!(u64, u64, NoHashHasher, "SuperMinHash2<u64,NoHash>");
+    // SuperMinHash<f64>: the sketch value of a single item at size 1 is its uniform fraction
+    let mut vals: Vec<u64> = (0..n)
+        .into_par_iter()
+        .map(|i| {
+            let mut s = SuperMinHash::<f64, u64, FnvHasher>::new(1, BuildHasherDefault::<FnvHasher>::default());
+            s.sketch(&i).unwrap();
+            s.get_hsketch()[0].to_bits()
+        })
+        .collect();
+    evals += n;
+    vals.sort_unstable();
+    let dup = vals.windows(2).filter(|w| w[0] == w[1]).count();
+    if dup > 0 {
+        ctx.violation(
+            "set-semantics:resolution:SuperMinHash<f64>",
+            &format!("SuperMinHash<f64>: among the size-1 sketches of {} items, {} pairs have the same value: positions can tie between different items", n, dup),
+            json!({"kind": "resolution", "sketcher": "SuperMinHash<f64>", "n": n}),
+        );
+    }
+    evals
+}
+
 fn sizes(quick: bool) -> Vec<usize> {
     if quick {
         vec![1, 2, 3, 7, 64]
@@ -265,6 +332,8 @@ pub fn run(ctx: &Ctx) -> i32 {
         }
         per_kind.push(json!({"sketcher": kind.name, "executions": o.execs, "groups": o.groups, "distinct_sketches": o.distinct_obs}));
     }
+    let n_res: u64 = ctx.pick(1 << 20, 1 << 23);
+    execs += resolution_check(ctx, n_res);
     println!("C04 kinds={} executions={} item-set groups={} distinct sketches={}", kinds.len(), execs, groups, distinct);
     let coverage = json!({
         "states": distinct,
@@ -278,7 +347,7 @@ pub fn run(ctx: &Ctx) -> i32 {
         "exhaustive": true,
         "evaluations": execs,
         "distinct_nontrivial": distinct,
-        "rule": "for SuperMinHash f32/f64, SuperMinHash2 u32/u64, SetSketcher u8/u16/u32 (3 parameter sets) and both densified sketchers f32/f64 (Fnv hasher; plus no-op-hasher kinds where item 0 hashes to 0), sizes {1,2,3,7,64} (+5,16,200): every stream of length 1..5 (6) over 5 (6) symbols (4-5 items and a burst of 12 fresh items), i.e. every order and every repetition, under item-wise calls, every chunking into slice calls (all 2^(L-1) cut patterns) and item-wise calls interleaved with empty slices; densified sketchers: item-wise + end_sketch versus one slice; all streams with the same set of distinct items must give the bit-identical observation (all views); stored hashes must be hashes of streamed items; distinct = distinct sketches (one per item set and kind)",
+        "rule": "for SuperMinHash f32/f64, SuperMinHash2 u32/u64, SetSketcher u8/u16/u32 (3 parameter sets) and both densified sketchers f32/f64 (Fnv hasher; plus no-op-hasher kinds where item 0 hashes to 0), sizes {1,2,3,7,64} (+5,16,200): every stream of length 1..5 (6) over 5 (6) symbols (4-5 items and a burst of 12 fresh items), i.e. every order and every repetition, under item-wise calls, every chunking into slice calls (all 2^(L-1) cut patterns) and item-wise calls interleaved with empty slices; densified sketchers: item-wise + end_sketch versus one slice; all streams with the same set of distinct items must give the bit-identical observation (all views); stored hashes must be hashes of streamed items; the random value deciding the owner of a position must be distinct for all 2^20 (2^23) items of a block (size-1 sketches, hook H5 for SuperMinHash2); distinct = distinct sketches (one per item set and kind)",
         "sketcher_kinds": kinds.len(),
         "item_set_groups": groups,
         "per_kind": per_kind,
